@@ -360,7 +360,26 @@ pub fn random_trace(seed: u64) -> Trace {
     let p_newexpr = *rng.pick(&[0.0, 0.03, 0.08]);
     let p_setnode = *rng.pick(&[0.0, 0.04, 0.1]);
     let p_other = *rng.pick(&[0.0, 0.05, 0.15]);
+    // FS-fault configuration: the navigation rule file breaks (and is repaired) in the middle of the walk; the position
+    // must stay a retrievable node of the current expression whatever the failing commands do
+    let with_faults = rng.chance(0.12);
+    if with_faults {
+        s.insert(1, Step::Call(Op::SetPref("CheckRuleFiles".into(), "All".into())));
+    }
+    let nav_file = format!("{}/Languages/en/navigate.yaml", MOUNT_A);
+    let mut broken = false;
     for _ in 0..n {
+        if with_faults && rng.chance(0.06) {
+            s.push(Step::Env(EnvEvent::Clock { ms: rng.range(1, 3000) as u64 }));
+            if broken {
+                s.push(Step::Env(EnvEvent::Repair { path: nav_file.clone() }));
+            } else {
+                let kinds = [FaultKind::Empty, FaultKind::Garbage, FaultKind::InvalidXpath(rng.below(1000)), FaultKind::TruncEntries(rng.below(1000)), FaultKind::WrongTopType, FaultKind::UnknownReplacementKey(rng.below(1000))];
+                s.push(Step::Env(EnvEvent::Fault { path: nav_file.clone(), kind: rng.pick(&kinds).clone() }));
+            }
+            broken = !broken;
+            continue;
+        }
         let r = (rng.next_u64() % 10_000) as f64 / 10_000.0;
         if r < p_newexpr {
             let e = match rng.below(10) {
